@@ -51,7 +51,7 @@ def _case(draw, tier):
         "seed": draw(st.integers(0, 2**31 - 1)),
         "files": files,
         "many": many,
-        "maxlen": 30 if many else draw(st.sampled_from([8, 40, 200])),
+        "maxlen": 30 if many else draw(st.sampled_from([8, 40, 200, 200, 200, 6000])),
         "enzyme": draw(st.sampled_from(ENZYMES)),
         "reverse": draw(st.booleans()),
         "concatenate": draw(st.booleans()),
